@@ -173,6 +173,39 @@ def generate(src, die, coq_str):
         die("check_parameterised: redirect replacement condition not recognised")
     repl = parse_cond(m.group(1), die)
 
+    # ---- the entry points: what each public query hands to check_parameterised, in which order
+    msig = re.search(r"pub fn check_parameterised\(\s*&self,\s*request: &Request,\s*resources: &ResourceStorage,\s*(\w+): bool,\s*(\w+): bool,?\s*\)", b)
+    if not msig:
+        die("check_parameterised: signature not recognised")
+    params = [msig.group(1), msig.group(2)]
+    if params != ["matched_rule", "force_check_exceptions"]:
+        die("check_parameterised: flag parameters renamed or reordered: %r" % params)
+    cb = "".join(_bs.fn_body(b, r"pub fn check\(&self, request: &Request, resources: &ResourceStorage\)\s*->\s*BlockerResult\s*\{", die).split())
+    mc = re.fullmatch(r"self\.check_parameterised\(request,resources,(\w+),(\w+)\)", cb)
+    if not mc:
+        die("Blocker::check: not a forwarder to check_parameterised: %r" % cb)
+    e = _bs.strip_comments(src("src/engine.rs"))
+    eb = "".join(_bs.fn_body(e, r"pub fn check_network_request\(&self, request: &Request\)\s*->\s*BlockerResult\s*\{", die).split())
+    if eb != "self.blocker.check(request,&self.resources)":
+        die("Engine::check_network_request: not blocker.check(request, &self.resources): %r" % eb)
+    ms = re.search(r"pub fn check_network_request_subset\(\s*&self,\s*request: &Request,\s*(\w+): bool,\s*(\w+): bool,?\s*\)\s*->\s*BlockerResult\s*\{", e)
+    if not ms:
+        die("Engine::check_network_request_subset: signature not recognised")
+    sb, _ = _bs.block_at(e, ms.end() - 1, die)
+    mm = re.fullmatch(r"self\.blocker\.check_parameterised\(request,&self\.resources,(\w+),(\w+),?\)", "".join(sb.split()))
+    if not mm:
+        die("Engine::check_network_request_subset: not a forwarder to check_parameterised: %r" % sb)
+    # position of each public parameter among the two flags handed on
+    names = {ms.group(1): "arg1", ms.group(2): "arg2"}
+    if [ms.group(1), ms.group(2)] != ["previously_matched_rule", "force_check_exceptions"]:
+        die("Engine::check_network_request_subset: public flag parameters renamed or reordered")
+    sub = [names.get(mm.group(1)), names.get(mm.group(2))]
+    if None in sub:
+        die("Engine::check_network_request_subset: hands on something other than its two flags")
+    gb = "".join(_bs.fn_body(e, r"pub fn get_csp_directives\(&self, request: &Request\)\s*->\s*Option<String>\s*\{", die).split())
+    if gb != "self.blocker.get_csp_directives(request)":
+        die("Engine::get_csp_directives: not a plain forwarder: %r" % gb)
+
     def c(e):
         return "QTrue" if e is None else coq_cond(e)
     out = ["Module CheckGen.",
@@ -190,5 +223,8 @@ def generate(src, die, coq_str):
            "Definition matched_cond : qcond := %s." % c(matched),
            "Definition important_cond : qcond := %s." % c(important),
            "Definition redirect_replace_cond : qcond := %s." % c(repl),
+           "(* entry points: the (matched_rule, force_check_exceptions) each hands to check_parameterised *)",
+           "Definition plain_query_flags : string * string := (\"%s\", \"%s\")." % (mc.group(1), mc.group(2)),
+           "Definition subset_query_flags : string * string := (\"%s\", \"%s\")." % (sub[0], sub[1]),
            "End CheckGen."]
     return out
